@@ -51,13 +51,16 @@ def run(tier, seed):
     po3 = proof_obligations("WowVerif.Thm.C17c")      # flat_sound / flat_walk: soundness of the static matcher for straight-line messages
     add_proof_failures(rep, po3)
     po = dict(po, theorems=dict(po["theorems"], **po3["theorems"]), obligations=po["obligations"] + po3["obligations"], discharged=po["discharged"] + po3["discharged"])
+    po4 = proof_obligations("WowVerif.Thm.C17d")      # walkMs_sound / walk_ends / walk_ends_dir / walk_ends_login: arrays, conditionals, structs, optional tails
+    add_proof_failures(rep, po4)
+    po = dict(po, theorems=dict(po["theorems"], **po4["theorems"]), obligations=po["obligations"] + po4["obligations"], discharged=po["discharged"] + po4["discharged"])
     rng = SplitMix64(seed)
     cov = None
     for label, base in ws_dirs(tier, rep):
         cov = walk(rep, tier, rng, label, base, po) if cov is None else dict(cov, regenerated=walk(rep, tier, rng, label, base, po))
     rep.coverage = cov
     rep.assumptions = ["messages with built-in types outside the generic semantics (update mask, aura mask, splines, addon arrays, compressed payloads) are not walked (counted as unsupported)",
-                       "the theorem for the full statement language (loops, conditionals) is the planned wsMatches_sound; until then those programs are decided on the enumerated encodings only — level for them is correspondence against the specification semantics"]
+                       "the structural theorem (Thm/C17d.lean) proves the END POSITION for all values of the definitions its matcher accepts (627 of 650 (definition, direction) pairs on the unchanged tree); the reported field widths of non-straight-line messages, definitions with a self.size field and the five Vanilla messages with built-in types are decided on the enumerated encodings only"]
     return rep.finish()
 
 
@@ -157,6 +160,38 @@ def walk(rep, tier, rng, label, base, po):
                 n_flat_ok += 1
             elif not n.startswith("login"):      # login cases sit inside a protocol_version switch: outside the fragment
                 flat_bad.append((n, k))
+    # the verified STRUCTURAL matcher (Thm/C17d.lean walk_ends / walk_ends_dir): arrays, conditionals, nested structs, optional tails — for every
+    # value at once.  Both sides are numbered by field / variable NAME for it (corpus.Resolver(name_ids=True), wireshark_c.NAME_IDS)
+    nfile = os.path.join(CACHE, f"wsnamed-{label}.txt")
+    need = {k for _, k, _ in pairs}
+    rn = corpus_mod.Resolver(name_ids=True)
+    wsc.NAME_IDS = True
+    try:
+        cases_n = wsc.parse_cases(os.path.join(base, "parser.txt"), consts)
+    finally:
+        wsc.NAME_IDS = False
+    with open(nfile, "w") as f:
+        for c in rn.containers():
+            if "tokens" in c and c["key"] in need:
+                f.write(f"container N|{c['key']} {c['opcode']} {' '.join(c['tokens'])}\n")
+        for which, dd in cases_n.items():
+            for name, (toks, prob, hfs, line, used) in dd.items():
+                if toks is not None:
+                    f.write(f"ws N|{which}:{name} {' '.join(toks)}\n")
+    d.ask(f"load {nfile}")
+    ver_of = {c["key"]: c["target"] for (c, case, s2c) in meta if c["lib"] == "login"}
+    wm = d.ask_many([f"wsmatch N|{n} N|{k}" + (f" {ver_of[k]}" if k in ver_of else "") for n, k, _ in pairs])
+    n_struct_ok = n_struct_new = 0
+    struct_bad = []
+    flat_by = {(n, k, s2c): ("flat=1" in o and ("s2c=1" if s2c else "c2s=1") in o) for (n, k, s2c), o in zip(pairs, flat)}
+    for (n, k, s2c), o in zip(pairs, wm):
+        ok_ = "wf=1" in o and (("s2c=1" if s2c else "c2s=1") in o)
+        if ok_:
+            n_struct_ok += 1
+            if not flat_by[(n, k, s2c)]:
+                n_struct_new += 1
+        else:
+            struct_bad.append((n, k, s2c, o))
     d.close()
     classes = collections.Counter()
     per_case = collections.defaultdict(collections.Counter)
@@ -184,6 +219,20 @@ def walk(rep, tier, rng, label, base, po):
         if not wit:
             rep.violation(f"C17/{k}/static-matcher", f"{k}: the definition is straight-line but the verified matcher rejects its dissector case {n} (a field is walked with another width / encoding / order)",
                           {"container": k, "case": n, "unchecked": "flatMatches (Thm/C17c.lean)"}, no_input=True)
+    # a pair the structural matcher refuses although the definition is inside its fragment (no built-in type, no `self.size` field): the walk is no
+    # longer proved to end at the end for all values — reported unless the interpreter runs above already produced a concrete witness for it
+    toks_of = {c["key"]: c["tokens"] for (c, case, s2c) in meta}
+    n_struct_outside = 0
+    for n, k, s2c, o in struct_bad:
+        t_ = toks_of.get(k, [])
+        has_size_field = any(t_[i] == "f" and i + 2 < len(t_) and t_[i + 2] == "s" for i in range(len(t_)))
+        if "prim" in t_ or has_size_field or "wf=0" in o:
+            n_struct_outside += 1
+            continue
+        wit = [1 for (c, case, s2c_), o_ in zip(meta, out) if c["key"] == k and not (o_.startswith("ok same") or o_.startswith("unsupported"))]
+        if not wit:
+            rep.violation(f"C17/{k}/structural-matcher", f"{k} ({'server to client' if s2c else 'client to server'}): the verified matcher no longer accepts the dissector case {n} for this definition (a loop over another count, a condition on another variable / other values, a field walked with another width, or statements in another order): {o}",
+                          {"container": k, "case": n, "direction_s2c": s2c, "matcher": o, "theorem": "WowVerif.Wireshark.walk_ends / walk_ends_dir / walk_ends_login (Thm/C17d.lean)"}, no_input=True)
     covered = sum(1 for k, v in per_case.items() if any(x.startswith("ok") for x in v))
     return {
         "fragments": label,
@@ -194,7 +243,10 @@ def walk(rep, tier, rng, label, base, po):
                                                "the fragments checked are the committed tests/wireshark/*.txt, which C08 shows to be what the generator emits"],
         "theorems": po["theorems"], "declaration_obligations": n_decl,
         "evaluations": len(reqs), "distinct_nontrivial": len(set(reqs)), "outcome_classes": dict(classes), "cases_translated": {w: len(have[w]) for w in have},
-        "cases_unsupported": dict(unsupported_cases), "containers_walked_ok": covered, "straight_line_definitions": n_flat, "straight_line_definitions_proved_for_all_values": n_flat_ok, "containers_without_case": len(missing), "containers_without_case_sample": missing[:8],
+        "cases_unsupported": dict(unsupported_cases), "containers_walked_ok": covered, "straight_line_definitions": n_flat, "straight_line_definitions_proved_for_all_values": n_flat_ok,
+        "definitions_whose_walk_is_proved_to_end_at_the_end_for_all_values (walk_ends)": n_struct_ok, "of_which_not_straight_line": n_struct_new, "pairs_compared_by_the_structural_matcher": len(pairs),
+        "structural_matcher_outside_fragment (built-in type / self.size field)": n_struct_outside,
+        "structural_matcher_refused_sample": [f"{n} {k} s2c={s} {o}" for n, k, s, o in struct_bad[:12]], "containers_without_case": len(missing), "containers_without_case_sample": missing[:8],
         "rule": "per Vanilla world message and login message/version with a dissector case: branch-directed samples (every arm), enumerator sweep, random samples with array lengths 0/1/2/5, both directions for MSG; wowm test vectors; walk must end at the end of the body with the definition's (width, encoding) list",
         "samples": [{"request": reqs[i][:160], "model": out[i][:120]} for i in (0, len(reqs) // 2, len(reqs) - 1)] if reqs else [],
     }
